@@ -40,7 +40,7 @@ PROPS["C01"] = {"rules": ["R09", "R10", "R11", "R08", "R13c"], "explanation": "w
 PROPS["C05"] = {"rules": ["R10", "R11", "R08", "R13c", "R13ab"], "explanation": "wip", "assumptions": [], "trusted": COMMON_TRUST}
 PROPS["C03"] = {"rules": ["R11", "R13ab"], "explanation": "wip", "assumptions": [], "trusted": COMMON_TRUST}
 PROPS["C06"] = {"rules": ["R09", "R10", "R11", "R08", "R13c", "R14", "R15", "R26"], "explanation": "wip", "assumptions": [], "trusted": COMMON_TRUST}
-PROPS["C09"] = {"rules": ["R10", "R11", "R31"], "explanation": "wip", "assumptions": [], "trusted": COMMON_TRUST}
+PROPS["C09"] = {"rules": ["R10", "R11", "R31", "R20", "R21", "R22", "R33", "R17"], "explanation": "wip", "assumptions": [], "trusted": COMMON_TRUST}
 PROPS["C20"] = {"rules": ["R09", "R10", "R08", "R14", "R23"], "explanation": "wip", "assumptions": [], "trusted": COMMON_TRUST}
 
 PROPS["C02"] = {"rules": ["R16", "R14", "R15", "R32", "R08"], "explanation": "wip", "assumptions": [], "trusted": COMMON_TRUST}
@@ -52,11 +52,11 @@ PROPS["C12"] = {"rules": ["R18", "R19"], "explanation": "wip", "assumptions": []
 PROPS["C13"] = {"rules": ["R19", "R18"], "explanation": "wip", "assumptions": [], "trusted": COMMON_TRUST}
 
 PROPS["C04"] = {"rules": ["R14", "R15", "R32", "R17", "R08"], "explanation": "wip", "assumptions": [], "trusted": COMMON_TRUST}
-PROPS["C19"] = {"rules": ["R32"], "explanation": "wip", "assumptions": [], "trusted": COMMON_TRUST}
+PROPS["C19"] = {"rules": ["R32", "R20"], "explanation": "wip", "assumptions": [], "trusted": COMMON_TRUST}
 
 PROPS["C07"] = {"rules": ["R23", "R24", "R25", "R26"], "explanation": "wip", "assumptions": [], "trusted": COMMON_TRUST}
 PROPS["C08"] = {"rules": ["R23", "R24", "R14", "R26"], "explanation": "wip", "assumptions": [], "trusted": COMMON_TRUST}
 
 PROPS["C10"] = {"rules": ["R27", "R26"], "explanation": "wip", "assumptions": [], "trusted": COMMON_TRUST}
-PROPS["C17"] = {"rules": ["R29", "R26", "R23"], "explanation": "wip", "assumptions": [], "trusted": COMMON_TRUST}
+PROPS["C17"] = {"rules": ["R29", "R26", "R23", "R20"], "explanation": "wip", "assumptions": [], "trusted": COMMON_TRUST}
 PROPS["C18"] = {"rules": ["R26", "R14", "R07"], "explanation": "wip", "assumptions": [], "trusted": COMMON_TRUST}
